@@ -77,3 +77,23 @@ Print Assumptions C03_perfect_add_stepwise.
 Print Assumptions C03_mirror.
 Print Assumptions C03_kernels_are_translated.
 Print Assumptions C03_operations_are_translated.
+
+(* SAMPLE FORM (Proofs/ComposeDep.v, on the notion of Proofs/Compose.v: a p-box bounds a sample when the sorted sample lies step by step inside
+   it).  Perfect dependence: the two samples are comonotone - one re-indexing of the outcomes sorts both; opposite dependence: it sorts one
+   and reverses the other.  Then the result of perfect_op / opposite_op bounds the sample of outcomes u_i (op) v_i, for + - x / and operands
+   of any sign (divisor steps free of zero). *)
+From PUN Require Import Proofs.IntervalOps Proofs.PboxWF Proofs.Compose Proofs.ComposeDep.
+Theorem C03_perfect_sound (op : bop) (XL XR YL YR : list R) n (u v : list R) :
+  length XL = n -> length XR = n -> length YL = n -> length YR = n -> ple XL XR -> ple YL YR ->
+  (is_div op = true -> forall j, (j < n)%nat -> ~ has0 (nth j YL 0, nth j YR 0)) ->
+  bounds XL XR u -> bounds YL YR v -> comonotone u v ->
+  bounds (fst (perfect_op RN (opR op) XL XR YL YR)) (snd (perfect_op RN (opR op) XL XR YL YR)) (map2 (opR op) u v).
+Proof. intros. eapply perfect_bounds; eauto. Qed.
+Theorem C03_opposite_sound (op : bop) (XL XR YL YR : list R) n (u v : list R) :
+  length XL = n -> length XR = n -> length YL = n -> length YR = n -> ple XL XR -> ple YL YR ->
+  (is_div op = true -> forall j, (j < n)%nat -> ~ has0 (nth j YL 0, nth j YR 0)) ->
+  bounds XL XR u -> bounds YL YR v -> countermonotone u v ->
+  bounds (fst (opposite_op RN (opR op) XL XR YL YR)) (snd (opposite_op RN (opR op) XL XR YL YR)) (map2 (opR op) u v).
+Proof. intros. eapply opposite_bounds; eauto. Qed.
+Print Assumptions C03_perfect_sound.
+Print Assumptions C03_opposite_sound.
